@@ -190,8 +190,14 @@ class PandasMaterializer(FormulaMaterializer):
             return spsparse.hstack([col[1] for col in cols])
         if spec.output == "numpy":
             return numpy.stack([col[1] for col in cols], axis=1)
-        return pandas.DataFrame(
-            {col[0]: col[1] for col in cols},
+        # Assemble by position and label afterwards: a name-keyed dictionary
+        # would silently merge columns that share a label (e.g. a data column
+        # named `A[T.b]` next to the factor `A`), leaving fewer columns than
+        # `ModelSpec.column_names` reports.
+        df = pandas.DataFrame(
+            {i: col[1] for i, col in enumerate(cols)},
             index=pandas_index,
             copy=False,
         )
+        df.columns = [col[0] for col in cols]
+        return df
